@@ -152,7 +152,7 @@ def run(c):
               "level, a sibling directory and next to owner-allowed symlink targets; both entry points and the shipped binary. Oracle: no secret marker in any response; climbing target => status >= 400. "
               "Class = (segment-feature set, tree depth, entry point, range form); non-trivial = has a '..'/encoded/odd segment.")
     rng = c.rng
-    ntrees = 5 if c.quick else 40
+    ntrees = 10 if c.quick else 60
     per_tree = 250 if c.quick else 1200
     for cat in ("a climbing target answered >= 400 (process)", "a climbing target answered >= 400 (legacy)", "a legitimate in-root 200", "a symlink-allowed outside file served", "engine B responses"):
         c.need(cat)
